@@ -9,15 +9,15 @@ from __future__ import annotations
 
 import numpy as np
 
-from .. import gens
+from .. import forms, gens
 from ..common import Skip, brief
 
 ID = "C12"
 CASES = {"quick": 4000, "thorough": 50000}
 FLOOR = {"quick": 3500, "thorough": 45000}
 FLOOR_COUNTERS = {
-    "quick": {"tiny_magnitude_kernels": 250, "normalizer_fits": 1800, "sparse_fits": 1800, "test_kernels_judged": 3500, "weighted_fits": 2000, "estimators_with_a_past": 2500, "fewer_samples_than_active_points": 200},
-    "thorough": {"tiny_magnitude_kernels": 3000, "normalizer_fits": 22000, "sparse_fits": 22000, "test_kernels_judged": 45000, "weighted_fits": 25000, "estimators_with_a_past": 30000, "fewer_samples_than_active_points": 2500},
+    "quick": {"tiny_magnitude_kernels": 250, "normalizer_fits": 1800, "sparse_fits": 1800, "test_kernels_judged": 3500, "weighted_fits": 2000, "estimators_with_a_past": 2500, "fewer_samples_than_active_points": 200, "in_place_entry_points": 3000, "non_default_containers": 1500},
+    "thorough": {"tiny_magnitude_kernels": 3000, "normalizer_fits": 22000, "sparse_fits": 22000, "test_kernels_judged": 45000, "weighted_fits": 25000, "estimators_with_a_past": 30000, "fewer_samples_than_active_points": 2500, "in_place_entry_points": 40000, "non_default_containers": 20000},
 }
 RULE = (
     "case = explicit features F (n 2-30, f 1-8, offset so that centring matters), test features (1-40 rows), weights "
@@ -68,6 +68,7 @@ def gen(rng, tier, index):
         "with_trace": bool((index // 4) % 2),
         "sparse": bool(index % 2),
         "few": bool(few),
+        "xform": gens.pick(rng, forms.PRESENT),
         "past": bool(rng.random() < 0.4),  # the estimator has been fitted before (other kernel, weights, flags)
         "pseed": int(rng.integers(1 << 30)),
     }
@@ -140,6 +141,19 @@ def _run_normalizer(case, j):
     est2 = _with_a_past(j, case, KernelNormalizer, n, n, "2")
     T2 = est2.fit_transform(K.copy(), sample_weight=None if w is None else w.copy())
     j.close("fit_transform == fit followed by transform", T2, Tk, 1e-12 * mag / s)
+    # the in-place entry points: the caller gives the kernel away (copy=False); what comes back is still the right kernel
+    est3 = _with_a_past(j, case, KernelNormalizer, n, n, "33")
+    T3 = np.asarray(est3.fit_transform(K.copy(), sample_weight=None if w is None else w.copy(), copy=False))
+    j.close("fit_transform(copy=False) returns the same centred, scaled kernel", T3, Fc @ Fc.T / s, tol)
+    T4 = np.asarray(est.transform(Kt.copy(), copy=False))
+    j.close("transform(copy=False) returns the same test kernel", T4, Ftc @ Fc.T / s, tol)
+    j.note("in_place_entry_points", 2)
+    # the same numbers in other containers
+    form = case.get("xform", "C")
+    if form != "C":
+        est5 = KernelNormalizer(with_center=wc, with_trace=wt).fit(forms.present(K, form), sample_weight=None if w is None else w.copy())
+        j.close("result independent of the container the kernel arrives in", est5.transform(forms.present(Kt, form)), Ftc @ Fc.T / s, tol)
+        j.note("non_default_containers")
     return {"scale_": float(est.scale_), "trace_after": float(np.trace(Tk))}
 
 
@@ -182,6 +196,13 @@ def _run_sparse(case, j):
     est2 = _with_a_past(j, case, SparseKernelCenterer, n, len(Fa), "2")
     T2 = est2.fit_transform(Knm.copy(), Kmm.copy(), sample_weight=None if w is None else w.copy())
     j.close("fit_transform == fit followed by transform", T2, T, 1e-12 * mag / s)
+    form = case.get("xform", "C")
+    if form == "list":
+        form = "C"  # documented for numpy arrays only (no input validation: a list has no .shape)
+    if form != "C":
+        est5 = SparseKernelCenterer(with_center=wc, with_trace=wt).fit(forms.present(Knm, form), forms.present(Kmm, form), sample_weight=None if w is None else w.copy())
+        j.close("result independent of the container the kernels arrive in", est5.transform(forms.present(Ktm, form)), (Ktm - rows) / s, 1e-9 * max(float(np.abs(Ktm).max()), mag) / s)
+        j.note("non_default_containers")
     return {"scale_": float(est.scale_), "n_active": int(len(Fa))}
 
 
